@@ -784,7 +784,7 @@ def gen_doc(rng, big=False):
     """Well-formed DSL dictionary with optional sections in random combination, layout variants, init_state."""
     if big and rng.random() < 0.4:
         d, feats = gen.gen_instance(rng, rng.choice(["classic", "transport", "buffers", "full", "full", "full"]),
-                                    nj=rng.choice([5, 8, 11, 12, 13]), nm=rng.randint(4, 12))
+                                    nj=rng.choice([5, 8, 11, 12, 13]), nm=rng.choice([4, 6, 9, 11, 12, 13]))
     else:
         d, feats = gen.gen_instance(rng, rng.choice(["classic", "transport", "buffers", "full", "full"]),
                                     nj=rng.choice([1, 2, 2, 3, 4]))
@@ -1064,6 +1064,45 @@ def setup_matrix_oracle(d, inst):
     return vs
 
 
+def outage_oracle(d, inst):
+    """Direct reading of the document's outage entries compared with the compiled components (C16, C10): machine m carries exactly
+    the entries whose `component` is m's own id or one of the names for all machines, every AGV exactly the entries named for
+    transports (AGV logistics only: the default one-AGV-per-job logistics carries none); counts and, for plain numbers, the
+    (duration, frequency) pairs in document order."""
+    vs = []
+    outs = d["instance_config"].get("outages") or []
+    def plain(e):
+        return [(e["duration"], e["frequency"])] if isinstance(e["duration"], int) and isinstance(e["frequency"], int) else None
+    def values(cfgs):
+        r = []
+        for o in cfgs:
+            dv, fv = getattr(o.duration, "time", None), getattr(o.frequency, "time", None)
+            r.append((dv, fv))
+        return r
+    for m in inst.machines:
+        want = [e for e in outs if e["component"] in ("m", "machine", "Machine", "MACHINE", m.id)]
+        if len(m.outages) != len(want):
+            vs.append({"kind": "outages:machine_count", "detail": "machine %s compiled with %d outage(s), the document gives it %d "
+                       "(entries naming %s or all machines)" % (m.id, len(m.outages), len(want), m.id), "replay": {"dsl": d}, "facts": {}})
+            return vs
+        if all(plain(e) for e in want):
+            got = values(m.outages)
+            exp = [plain(e)[0] for e in want]
+            if all(isinstance(a, int) and isinstance(b, int) for a, b in got) and got != exp:
+                vs.append({"kind": "outages:machine_values", "detail": "machine %s: compiled (duration, frequency) %s, document %s"
+                           % (m.id, got, exp), "replay": {"dsl": d}, "facts": {}})
+                return vs
+    lg = d["instance_config"].get("logistics") or {}
+    if "type" in lg:
+        want = [e for e in outs if e["component"] in ("t", "transport", "Transport", "TRANSPORT")]
+        for t in inst.transports:
+            if len(t.outages) != len(want):
+                vs.append({"kind": "outages:transport_count", "detail": "transport %s compiled with %d outage(s), the document gives %d"
+                           % (t.id, len(t.outages), len(want)), "replay": {"dsl": d}, "facts": {}})
+                return vs
+    return vs
+
+
 def time_behavior_oracle(d, inst):
     """Direct reading of instance.time_behavior: the compiled processing-time objects carry the distribution and the
     parameters written in the document (uniform: base -/+ offset; gaussian: std; gamma: scale; poisson: mean base+0.5)."""
@@ -1157,7 +1196,7 @@ def _dsl_worker(args):
         try:
             comp = jsl.make_compiler(d, cfg)
             inst, st = comp.compile()
-            for v in _direct_compile_oracles(d, inst, st) + setup_matrix_oracle(d, inst) + time_behavior_oracle(d, inst):
+            for v in _direct_compile_oracles(d, inst, st) + setup_matrix_oracle(d, inst) + time_behavior_oracle(d, inst) + outage_oracle(d, inst):
                 out["violations"].append(v)
             if prop == "C17" and k % 3 == 0 and not _has_stochastic(d):
                 # "compiling the same text again gives an equal instance and initial state": also when the SAME
